@@ -35,6 +35,7 @@ func init() {
 }
 
 func runC03(c *Ctx) {
+	c01P = c.P
 	c.NotArmed("C03.copy-ordering", "wait-before-push inside each root's copy is C02.R1; discharged under C02, not duplicated here")
 	c03R1(c)
 	c03R2(c)
@@ -505,7 +506,62 @@ func c03R1(c *Ctx) {
 				ifelse(ok, "the given node is pushed with Depth 0 before the DFS loop", "the initial push does not carry the given node with Depth 0 on every path into the loop"))
 		}
 		if nInit == 0 {
-			c.Violation(R, fname+"|initial-push-depth-0", F.Pos(), "the given node is never pushed before the DFS loop")
+			// the stack may be created with its initial content: pending := copyutil.Stack{{Node: node, Depth: 0}}
+			okLit, found := true, false
+			if recv, isAlloc := pop.Common().Args[0].(*ssa.Alloc); isAlloc {
+				for _, st := range storesTo(recv) {
+					if dfs.Contains(st) {
+						continue
+					}
+					sl, isSlice := strip(st.Val).(*ssa.Slice)
+					if !isSlice {
+						continue
+					}
+					arr, isArr := sl.X.(*ssa.Alloc)
+					if !isArr {
+						continue
+					}
+					for _, r := range *arr.Referrers() {
+						ia, isIA := r.(*ssa.IndexAddr)
+						if !isIA {
+							continue
+						}
+						var nodeV, depthV ssa.Value
+						depthSet := false
+						for _, r2 := range *ia.Referrers() {
+							fa, isFA := r2.(*ssa.FieldAddr)
+							if !isFA {
+								continue
+							}
+							stt := c01StructOf(fa.X.Type())
+							for _, r3 := range *fa.Referrers() {
+								if s3, isStore := r3.(*ssa.Store); isStore && s3.Addr == ssa.Value(fa) && stt != nil {
+									switch stt.Field(fa.Field) {
+									case nodeNI:
+										nodeV = s3.Val
+									case depthNI:
+										depthV, depthSet = s3.Val, true
+									}
+								}
+							}
+						}
+						found = true
+						k, isK := int64(0), true
+						if depthSet {
+							k, isK = constInt(depthV)
+						}
+						if !isK || k != 0 || nodeV == nil || c01ParamOf(nodeV) == nil || !MustPass(header, newCut().Instr(st)) {
+							okLit = false
+						}
+					}
+				}
+			}
+			if found {
+				c.Check(R, fname+"|initial-push-depth-0", F.Pos(), okLit,
+					ifelse(okLit, "the stack is created holding the given node with Depth 0", "the stack's initial content is not the given node with Depth 0"))
+			} else {
+				c.Violation(R, fname+"|initial-push-depth-0", F.Pos(), "the given node is never pushed before the DFS loop")
+			}
 		}
 		// (2) depth cut-off
 		isOptDepth := func(v ssa.Value) bool {
@@ -1489,6 +1545,9 @@ func c03CheckFilterLoop(G *ssa.Function, l *Loop, descMT *types.Var) (res c03Fil
 		if len(c01PredicateTests(call, isMT)) > 0 {
 			continue // media-type dispatch predicate, not the filter
 		}
+		if _, _, isMember := c01Membership(call, isMT); isMember {
+			continue // slices.Contains(<media-type table>, elem.MediaType): dispatch, not the filter
+		}
 		uses := false
 		for _, a := range call.Call.Args {
 			if derivesElem(a) {
@@ -1861,7 +1920,7 @@ func c03R7(c *Ctx) {
 	}
 	keyParam, regexParam := FA.Params[1], FA.Params[2]
 	found := false
-	for _, K := range Anons(FA) {
+	for _, K := range c.P.FuncsOfPkg("") {
 		sig := K.Signature
 		if sig.Params().Len() != 1 || !c01IsOCIDescriptor(sig.Params().At(0).Type()) || sig.Results().Len() != 1 {
 			continue
@@ -1905,7 +1964,7 @@ func c03R7(c *Ctx) {
 		okT, okF := BoolTests(K, okVals)
 		regexVals := map[ssa.Value]bool{}
 		AllInstrs(K, func(in ssa.Instruction) {
-			if v, isV := in.(ssa.Value); isV && v.Type() == regexParam.Type() && c01CarriedFrom(c.P, v, regexParam) {
+			if v, isV := in.(ssa.Value); isV && types.Identical(v.Type(), regexParam.Type()) && c01CarriedFrom(c.P, v, regexParam) {
 				regexVals[v] = true
 			}
 		})
